@@ -251,9 +251,21 @@ def current_at(spec, t):
     """Reference evaluation of a current spec (the environment's truth)."""
     if spec is None:
         return {}
-    if spec["kind"] in ("const", "const_callable"):
+    if spec["kind"] in ("const", "const_callable", "main_def"):
         return dict(spec["I"])
     return CurrentSchedule(spec)._value(t)
+
+
+def define_in_main(name, values):
+    """A plain `def` at the top level of __main__ (what a script or notebook cell creates), returning the
+    given dict: such functions are pickled by reference by the standard pickle and by value by cloudpickle."""
+    import sys
+
+    main = sys.modules["__main__"]
+    exec(f"def {name}(time):\n    return {dict(values)!r}\n", main.__dict__)
+    fn = getattr(main, name)
+    fn.__module__ = "__main__"  # (in a spawned worker the main module calls itself __mp_main__)
+    return fn
 
 
 def build_currents(spec):
@@ -264,6 +276,8 @@ def build_currents(spec):
     if spec["kind"] == "const_callable":
         I = dict(spec["I"])
         return lambda t: I
+    if spec["kind"] == "main_def":
+        return define_in_main(spec["name"], spec["I"])
     return CurrentSchedule(spec)
 
 
